@@ -505,6 +505,10 @@ def rms(fs, duration, target):
             shape = list(data.shape[:-1]) + [n_blocks, n]
             d = data[..., :n_samples]
             d.shape = shape
+            if d.dtype.kind in 'biu':
+                # Squaring in an integer dtype overflows (e.g., 300 ** 2 as
+                # int16). Floating-point input is left as it is.
+                d = d.astype(np.double)
             result = np.mean(d ** 2, axis=-1) ** 0.5
             if isinstance(result, PipelineData):
                 result.channel = data.channel
